@@ -5,8 +5,33 @@ usage: reseed_all.py [names...]"""
 import json, os, subprocess, sys, time
 from pathlib import Path
 ROOT = Path("/verif/seeded")
-names = sys.argv[1:] or sorted(p.name for p in ROOT.iterdir() if (p / "patch.diff").exists())
+via_copy = "--via-copy" in sys.argv  # pre-screen on a scratch copy of /repo/src (PYTHONPATH) while /repo must stay untouched
+args = [a for a in sys.argv[1:] if not a.startswith("--")]
+names = args or sorted(p.name for p in ROOT.iterdir() if (p / "patch.diff").exists())
 def sh(cmd, **kw): return subprocess.run(cmd, capture_output=True, text=True, **kw)
+if via_copy:
+    import shutil
+    missed = []
+    for n in names:
+        d = ROOT / n
+        pid = json.loads((d / "meta.json").read_text())["property"]
+        scratch = Path("/var/tmp/reseed") / n
+        shutil.rmtree(scratch, ignore_errors=True)
+        scratch.mkdir(parents=True)
+        shutil.copytree("/repo/src", scratch / "src")
+        ap = sh(["patch", "-p1", "-s", "-d", str(scratch), "-i", str(d / "patch.diff")])
+        if ap.returncode != 0:
+            print(f"{n}: patch does not apply: {(ap.stdout + ap.stderr)[-200:]}"); shutil.rmtree(scratch, ignore_errors=True); continue
+        t0 = time.time()
+        env = {**os.environ, "VERIF_NO_CONFIRM": "1", "PYTHONPATH": str(scratch / "src"), "VERIF_EVIDENCE_DIR": str(scratch / "evidence"), "VERIF_REPLAY_DIR": str(scratch / "replays")}
+        (scratch / "evidence").mkdir()
+        r = sh(["/venv/bin/python", "-m", "mc.run", pid, "--tier", "quick"], cwd="/verif", env=env, timeout=3600)
+        sym = [l for l in r.stdout.splitlines() if "unexplained symptoms" in l]
+        print(f"{n}: rc={r.returncode} {round(time.time() - t0, 1)}s {(sym[-1][:160] if sym else '')}", flush=True)
+        if r.returncode != 1: missed.append(n)
+        shutil.rmtree(scratch, ignore_errors=True)
+    print("missed:", missed)
+    sys.exit(0)
 if sh(["git", "-C", "/repo", "status", "--short"]).stdout.strip():
     print("/repo is not clean"); sys.exit(2)
 missed = []
